@@ -16,7 +16,7 @@ LEVEL_TEXT = ('Bounded symbolic model checking of the real Runtime (start, input
               'shutdown) for m parties in one process: inputs, every dealer coefficient and every PRF output are solver variables; '
               'obligations are the Lagrange conditions on the m own-share terms and "constant term == plain value".')
 LEVEL_NOTE = 'Trusted: z3, shadow-int engine, simnet transports (validated against concrete replays), independent Lagrange oracle.'
-PROGRAMS = ['mul_add', 'linear', 'in_prod', 'prod3', 'pow3', 'vec', 'matrix', 'select', 'allany', 'randoms']
+PROGRAMS = ['zero_share', 'mul_add', 'linear', 'in_prod', 'prod3', 'pow3', 'vec', 'matrix', 'select', 'allany', 'randoms']
 
 
 def h(env):
